@@ -264,6 +264,8 @@ func c15run(w *report.W) {
 		{{"", `null`}},
 		{{"steps", `[]`}, {"name", `"n"`}, {"id", `"i"`}},
 		{{"Command", `"x"`}, {"wait ", `"x"`}, {"types", `"wait"`}},
+		// a key spelled "<<" (quoted, as every JSON key is): an ordinary extra key whatever its value holds
+		{{"<<", `{"command":"x","type":"trigger","wait":null,"group":"g"}`}},
 		// a large but well-formed matrix (7 dimensions of 21 values, 13 adjustments): an extra key like any other
 		{{"matrix", c15bigMatrix()}},
 		// poisoned: values that make the decoder of some kind fail
@@ -271,7 +273,7 @@ func c15run(w *report.W) {
 		{{"key", `["a","b"]`}},
 		{{"steps", `["frobnicate"]`}, {"label", `{"x":1}`}},
 	}
-	poisonedFrom := 8
+	poisonedFrom := 9
 	types := c15types // the last entry is an explicit empty type: present, and not a known name
 	for mask := 0; mask < 1<<10; mask++ {
 		has := map[string]bool{}
@@ -409,7 +411,7 @@ func init() {
 	register(&report.Check{
 		ID: "C15",
 		Rule: "finite table, fully enumerated: every subset of the ten kind-determining keys (well-typed values) x `type` in {absent, 9 known names, " +
-			"unknown, wrong case, near miss, the empty string} x 11 extra-key sets (unknown nested key, key+label, empty-string key, aliases+steps, look-alike keys, a 7x21 matrix with 13 adjustments, and three 'poisoned' sets whose values the decoder of some kind rejects - " +
+			"unknown, wrong case, near miss, the empty string} x 12 extra-key sets (a quoted `<<` key holding kind keys, unknown nested key, key+label, empty-string key, aliases+steps, look-alike keys, a 7x21 matrix with 13 adjustments, and three 'poisoned' sets whose values the decoder of some kind rejects - " +
 			"nested env mapping, list-valued key, unknown child step + mapping-valued label: there the step may also fall back to unknown with a warning, never to another known kind) x key orders " +
 			"(all permutations up to 3-4 keys, rotations of sorted and reversed beyond), each parsed as a top-level step and as the only child of a group; " +
 			"plus all scalar step strings built from <=2 pieces of a 19-piece alphabet, through Parse and through the exported NewScalarStep. Distinct = distinct document text; non-trivial = more than one key.",
